@@ -8,6 +8,7 @@ import (
 	"os"
 	"path/filepath"
 	"sort"
+	"sync/atomic"
 
 	"github.com/akrennmair/updog"
 	"github.com/akrennmair/updog/internal/openfile"
@@ -59,15 +60,30 @@ func NewWriter(kind, path string) (*Writer, error) {
 	return w, nil
 }
 
-func (w *Writer) AddRow(m map[string]string) (uint32, error) {
-	if w.big != nil {
-		return w.big.AddRow(m)
+// AddRow calls the real writer; a panic of the code under test is reported as an error.
+func (w *Writer) AddRow(m map[string]string) (id uint32, err error) {
+	if p := Safely(func() {
+		if w.big != nil {
+			id, err = w.big.AddRow(m)
+		} else {
+			id, err = w.mem.AddRow(m)
+		}
+	}); p != nil {
+		return 0, fmt.Errorf("panic in AddRow: %s @ %s", p.Value, p.Stack)
 	}
-	return w.mem.AddRow(m)
+	return id, err
 }
 
-// Flush writes the index and releases everything the writer holds.
-func (w *Writer) Flush() error {
+// Flush writes the index and releases everything the writer holds; a panic of the code under
+// test is reported as an error.
+func (w *Writer) Flush() (err error) {
+	if p := Safely(func() { err = w.flush() }); p != nil {
+		return fmt.Errorf("panic in Flush: %s @ %s", p.Value, p.Stack)
+	}
+	return err
+}
+
+func (w *Writer) flush() error {
 	switch w.Kind {
 	case "mem":
 		return w.mem.Flush()
@@ -101,9 +117,26 @@ func (w *Writer) Abandon() {
 	}
 }
 
+// ObsCounter is a HistogramMetric that counts its observations.
+type ObsCounter struct{ N atomic.Int64 }
+
+func (o *ObsCounter) Observe(float64) { o.N.Add(1) }
+
+// OpenObserved is Open with an IndexMetrics histogram attached.
+func OpenObserved(path, mode, cache string, capacity uint64, obs *ObsCounter) (*updog.Index, error) {
+	return open(path, mode, cache, capacity, obs)
+}
+
 // Open opens an index: mode ondemand|preload, cache none|lru (capacity in bytes).
 func Open(path, mode, cache string, capacity uint64) (*updog.Index, error) {
+	return open(path, mode, cache, capacity, nil)
+}
+
+func open(path, mode, cache string, capacity uint64, obs *ObsCounter) (*updog.Index, error) {
 	var opts []updog.IndexOption
+	if obs != nil {
+		opts = append(opts, updog.WithIndexMetrics(&updog.IndexMetrics{ExecuteDuration: obs}))
+	}
 	if cache == "lru" {
 		opts = append(opts, updog.WithCache(updog.NewLRUCache(capacity)))
 	}
@@ -172,11 +205,29 @@ func PickSorted(rng *rand.Rand, pool []string, n int, gen func(i int) string) []
 	return out
 }
 
-// SmallDict builds a dictionary for the enumerated (replay) direction.
+// SmallDict builds a dictionary for the enumerated (replay) direction. The empty string is always
+// one of the values (it sorts first, so it is rank 1: the value most enumerated rows carry).
 func SmallDict(rng *rand.Rand, ncols, nvals int) *Dict {
 	cols := PickSorted(rng, colPool, ncols, func(i int) string { return fmt.Sprintf("c%03d", i) })
-	vals := PickSorted(rng, nastyPool, nvals, func(i int) string { return fmt.Sprintf("v%05d", i) })
+	vals := PickSorted(rng, nastyPool[1:], nvals-1, func(i int) string { return fmt.Sprintf("v%05d", i) })
+	vals = append([]string{""}, vals...)
+	sort.Strings(vals)
 	return NewDict(cols, vals)
+}
+
+// AmbiguousDict is the adversarial dictionary: column names that are prefixes of one another and
+// values that make up the difference, so that column+value concatenations (without separator, or
+// with a blank) coincide: "a"+"b" = "ab"+"", "a"+"b c" ~ "a b"+"c".
+func AmbiguousDict(ncols, nvals int) *Dict {
+	cols := []string{"a", "ab", "abc", "b"}
+	vals := []string{"", "b", "bc", "c"}
+	for len(cols) < ncols {
+		cols = append(cols, fmt.Sprintf("z%02d", len(cols)))
+	}
+	for len(vals) < nvals {
+		vals = append(vals, fmt.Sprintf("z%02d", len(vals)))
+	}
+	return NewDict(cols[:ncols], vals[:nvals])
 }
 
 func Join(dir, name string) string { return filepath.Join(dir, name) }
